@@ -884,8 +884,10 @@ class MapType(_ParameterizedType):
             length = 2
         numelements = unpack(byts[:length])
         p = length
-        themap = util.OrderedMapSerializedKey(key_type, protocol_version)
         inner_proto = max(3, protocol_version)
+        # keys are indexed by their serialized form, which inside a collection is
+        # always at least the protocol v3 form
+        themap = util.OrderedMapSerializedKey(key_type, inner_proto)
         for _ in range(numelements):
             key_len = unpack(byts[p:p + length])
             p += length
